@@ -114,7 +114,7 @@ Proof.
   (* the log, oldest first *)
   assert (Echron : chron s = map opres (rev C) ++ opres eR :: map opres (rev B) ++ opres eC :: map opres (rev A)).
   { unfold chron. rewrite Elog. rewrite rev_app_distr. cbn [rev]. rewrite rev_app_distr. cbn [rev].
-    rewrite <- !app_assoc. cbn [app]. rewrite !map_app. cbn [map]. rewrite <- !app_assoc. reflexivity. }
+    rewrite <- !app_assoc. cbn [app]. rewrite map_app. cbn [map]. rewrite map_app. cbn [map]. reflexivity. }
   assert (Hsnap : ~ In k (map fst snap)).
   { unfold opres in Echron at 2. rewrite CeO in Echron.
     eapply (removed_not_collected nl tr s R _ (le_op eR) (le_res eR) k _ snap _); [exact Echron | exact ReK |].
